@@ -250,3 +250,25 @@ VARIANTS += [
  V("c10-o5c-options-rename-before-sync", "C10", "C10.O5c", "open.go",
    "		if err := optionsFile.Sync(); err != nil {\n			return nil, errors.CombineErrors(err, optionsFile.Close())\n		}\n", ""),
 ]
+
+VARIANTS += [
+ V("c28-t1-indicator-maps-not-inverse", "C28", "C28.T1", "sstable/block/compression.go",
+   "	case MinLZCompressionIndicator:\n		return compression.MinLZ", "	case MinLZCompressionIndicator:\n		return compression.Snappy"),
+ V("c28-v1-indicator-from-configured-setting", "C28", "C28.V1", "sstable/block/compressor.go",
+   "	return compressionIndicatorFromAlgorithm(setting.Algorithm), out", "	return compressionIndicatorFromAlgorithm(compression.Algorithm(c.minReductionPercent % 4)), out"),
+ V("c28-v2-codec-mislabels", "C28", "C28.V2", "internal/compression/minlz.go",
+   "	return compressed, Setting{Algorithm: MinLZ, Level: uint8(c.level)}", "	return compressed, Setting{Algorithm: Snappy, Level: uint8(c.level)}"),
+]
+
+VARIANTS += [
+ V("c34-r1-acquire-outside-lock", "C34", "C34.R1", "internal/cache/clockpro.go",
+   "func (c *shard) get(k key, level base.Level, category Category, peekOnly bool) *Value {\n	c.mu.RLock()\n", "func (c *shard) get(k key, level base.Level, category Category, peekOnly bool) *Value {\n	c.mu.RLock()\n	c.mu.RUnlock()\n"),
+ V("c34-r1-setvalue-under-read-lock", "C34", "C34.R1", "internal/cache/clockpro.go",
+   "func (c *shard) set(k key, value *Value, markAccessed bool) {\n	c.mu.Lock()\n	defer c.mu.Unlock()", "func (c *shard) set(k key, value *Value, markAccessed bool) {\n	c.mu.RLock()\n	defer c.mu.RUnlock()"),
+ V("c34-w1-free-without-refcount", "C34", "C34.W1", "internal/cache/value.go",
+   "	if v != nil && v.ref.release() {\n		v.free()\n	}", "	if v != nil {\n		v.ref.release()\n		v.free()\n	}"),
+ V("c30-o1-publish-before-init", "C30", "C30.O1", "internal/arenaskl/skl.go",
+   "			nd.tower[i].init(prevOffset, nextOffset)\n", ""),
+ V("c30-w1-plain-store-of-link", "C30", "C30.W1", "internal/arenaskl/node.go",
+   "	return n.tower[h].prevOffset.CompareAndSwap(old, val)", "	n.tower[h].prevOffset.Store(val)\n	return true"),
+]
